@@ -52,6 +52,12 @@ def data_of(fs):
     return np.asarray(np.ma.getdata(fs), float)
 
 
+def roundoff(phi, xx, nd):
+    """Absolute round-off bound of the semi-analytic path: its weights are differences of incomplete beta functions (O(1), absolute
+    error ~eps each) divided by the grid spacing, so every |phi| value contributes up to ~eps/min(dx) of itself."""
+    return 4 * np.finfo(float).eps * nd * float(np.abs(phi).sum()) / float(np.diff(xx).min())
+
+
 @REG.relation('R1-analytic-path', strategy=phi_case, quick=(1600, 16), thorough=(30000, 16))
 def r1(c, rec):
     """Semi-analytic path (1-5 dimensions) = exact integral of binomial sampling against the piecewise-multilinear interpolant;
@@ -65,9 +71,10 @@ def r1(c, rec):
     require(np.array_equal(phi, phi0), 'from_phi modified phi')
     exp = S.contract(phi, [S.W_hat(n, xx) for n in ns])
     require_close(data_of(fs), exp, 1e-10 * max(ns), 'semi-analytic spectrum vs exact hat-basis integral', rec, key='analytic',
-                  atol=1e-14 * np.abs(exp).max(), path='analytic', dim=nd)
+                  atol=1e-14 * np.abs(exp).max() + roundoff(phi, xx, nd), path='analytic', dim=nd)
     mass = float(S.contract(phi, [S.trapz_weights(xx)[None, :]] * nd).ravel()[0])
-    require_close(data_of(fs).sum(), mass, 1e-10, 'sum of all entries vs trapezoid mass of phi', rec, key='analytic total', atol=1e-300)
+    require_close(data_of(fs).sum(), mass, 1e-10, 'sum of all entries vs trapezoid mass of phi', rec, key='analytic total',
+                  atol=1e-300 + roundoff(phi, xx, nd) * float(np.prod([n + 1 for n in ns])))
     require(fs.pop_ids == ['p%d' % i for i in range(nd)], 'pop_ids not set')
     require(fs.extrap_x == xx[1], 'extrap_x is not the first grid point above zero')
     require(not np.ma.getmaskarray(fs).any(), 'mask_corners=False ignored')
@@ -124,7 +131,7 @@ def r3(c, rec):
         small = dadi.Spectrum.from_phi(phi, ms, [xx] * nd, mask_corners=False, **kw)
         proj = big.project(ms)
     require_close(data_of(proj), data_of(small), 1e-9, 'from_phi(n).project(m) vs from_phi(m)', rec, key='sample-then-project',
-                  atol=1e-13 * np.abs(data_of(small)).max())
+                  atol=1e-13 * np.abs(data_of(small)).max() + 2 * roundoff(phi, xx, nd))
     if c['over']:
         over = sorted(c['over'])
         keep = [k for k in range(nd) if k not in over]
@@ -138,7 +145,8 @@ def r3(c, rec):
         for a in reversed(over):
             marg = marg.sum(axis=a)
         require_close(marg, data_of(fm), 1e-9, 'sampling then summing over populations %s vs integrating them out of phi first' % over,
-                      rec, key='marginalise-before-after', atol=1e-13 * np.abs(marg).max())
+                      rec, key='marginalise-before-after',
+                      atol=1e-13 * np.abs(marg).max() + 2 * roundoff(phi, xx, nd) * float(np.prod([ns[a] + 1 for a in over])))
     phi2 = G.make_phi(phi.shape, c['phi2_seed'], 'random')
     with dadi_call('from_phi'):
         f2 = dadi.Spectrum.from_phi(phi2, ns, [xx] * nd, mask_corners=False, **kw)
@@ -308,5 +316,6 @@ def r6(c, rec):
         b, a = over(), clean()
     require(np.isfinite(b).all(), 'overshooting grid gives non-finite spectrum')
     require_close(a, exp, 1e-10 * max(ns), 'clean-grid spectrum (evaluated %s the overshooting grid)' % ('before' if c['order'] else 'after'),
-                  rec, key='clean', atol=1e-14 * np.abs(exp).max())
-    require_close(b, exp, 1e-9 * max(ns), 'overshooting-grid spectrum vs clean oracle', rec, key='overshoot', atol=1e-12 * np.abs(exp).max())
+                  rec, key='clean', atol=1e-14 * np.abs(exp).max() + roundoff(phi, xx, nd))
+    require_close(b, exp, 1e-9 * max(ns), 'overshooting-grid spectrum vs clean oracle', rec, key='overshoot',
+                  atol=1e-12 * np.abs(exp).max() + roundoff(phi, xx, nd))
